@@ -83,6 +83,12 @@ func (p *Path) load(fr *frame, pos token.Pos, addr Value) Value {
 		return copyVal(*a)
 	case SymPtr:
 		return p.st.Select(a.Arr, a.Idx)
+	case IdxPtr:
+		r := a.Base[len(a.Base)-1].(*Term)
+		for i := len(a.Base) - 2; i >= 0; i-- {
+			r = p.st.Ite(p.st.Eq(a.Idx, p.st.BV(64, uint64(i))), a.Base[i].(*Term), r)
+		}
+		return r
 	}
 	p.unsupported("load through %T at %s", addr, p.pos(pos))
 	return nil
@@ -98,6 +104,12 @@ func (p *Path) store(fr *frame, pos token.Pos, addr Value, v Value) {
 		return
 	case SymPtr:
 		p.unsupported("store into read-only symbolic input array at %s", p.pos(pos))
+	case IdxPtr:
+		nv := v.(*Term)
+		for i := range a.Base {
+			a.Base[i] = p.st.Ite(p.st.Eq(a.Idx, p.st.BV(64, uint64(i))), nv, a.Base[i].(*Term))
+		}
+		return
 	}
 	p.unsupported("store through %T at %s", addr, p.pos(pos))
 }
@@ -568,6 +580,9 @@ func (p *Path) indexAddr(fr *frame, instr *ssa.IndexAddr, x Value, idx *Term) Va
 	switch x := x.(type) {
 	case []Value:
 		p.checkIndex(fr, instr.Pos(), idx, p.st.BV(64, uint64(len(x))))
+		if idx.Op != OpConst && scalarElems(x) {
+			return IdxPtr{x, idx}
+		}
 		i := p.concretize(idx, len(x)-1, "slice index")
 		return &x[i]
 	case *Value:
@@ -576,6 +591,9 @@ func (p *Path) indexAddr(fr *frame, instr *ssa.IndexAddr, x Value, idx *Term) Va
 		}
 		a := (*x).(Array)
 		p.checkIndex(fr, instr.Pos(), idx, p.st.BV(64, uint64(len(a))))
+		if idx.Op != OpConst && scalarElems(a) {
+			return IdxPtr{[]Value(a), idx}
+		}
 		i := p.concretize(idx, len(a)-1, "array index")
 		return &a[i]
 	case *SymSlice:
@@ -611,6 +629,26 @@ func (p *Path) index(fr *frame, instr *ssa.Index, x Value, idx *Term) Value {
 	}
 	p.unsupported("Index on %T", x)
 	return nil
+}
+
+// scalarElems: non-empty and every element is a scalar term of one width (symbolic indexing without a case split)
+func scalarElems(x []Value) bool {
+	if len(x) == 0 || len(x) > 4096 {
+		return false
+	}
+	w := -1
+	for _, e := range x {
+		t, ok := e.(*Term)
+		if !ok {
+			return false
+		}
+		if w < 0 {
+			w = t.W
+		} else if t.W != w {
+			return false
+		}
+	}
+	return true
 }
 
 // ---- slices ----
